@@ -641,7 +641,7 @@ func r07d(c *core.Ctx) {
 				return
 			}
 			r := core.FieldAddrRef(fa)
-			if r.Struct == nil || r.Struct.Obj().Name() != "cacheEntry" || r.Name == "l" {
+			if r.Struct == nil || core.StructName(r.Struct) != "cacheEntry" || r.Name == "l" {
 				return
 			}
 			// the Cost callback of otter reads len(value.v) without the lock: reviewed
